@@ -15,6 +15,8 @@
 //@ type sylt-parser/src/statement.rs enum NameIdentifier eq=none
 //@ type sylt-parser/src/statement.rs enum StatementKind eq=none
 //@ type sylt-parser/src/statement.rs struct Statement
+//@ type sylt-parser/src/parser.rs struct Module eq=none
+//@ type sylt-parser/src/parser.rs struct AST eq=none
 
 // ---- shape facts the later phases rely on (C07): an index expression is an integer literal, an
 // `if` has at least one branch. Deep predicates over the parser's AST.
@@ -82,3 +84,12 @@ pub open spec fn ps_shape(s: Statement) -> bool decreases s {
     }
 }
 pub open spec fn pall_shape(ss: Seq<Statement>) -> bool { forall|i: int| 0 <= i < ss.len() ==> ps_shape(#[trigger] ss[i]) }
+/// a top-level statement: what outer_statement can return
+pub open spec fn top_kind(s: Statement) -> bool {
+    s.kind is Blob || s.kind is Enum || s.kind is Definition || s.kind is ExternalDefinition
+        || s.kind is Use || s.kind is FromUse || s.kind is EmptyStatement
+}
+/// what the later phases require of the statements of a module: top-level kinds with the parser shape
+pub open spec fn all_top(ss: Seq<Statement>) -> bool { forall|j: int| 0 <= j < ss.len() ==> ps_shape(#[trigger] ss[j]) && top_kind(ss[j]) }
+pub open spec fn module_ok(m: Module) -> bool { all_top(m.statements@) }
+pub open spec fn modules_ok(ms: Seq<(FileOrLib, Module)>) -> bool { forall|i: int| 0 <= i < ms.len() ==> module_ok((#[trigger] ms[i]).1) }
